@@ -3,7 +3,7 @@
 set -e
 cd /verif
 . scripts/env.sh
-H=$(cat $(find internal/decl internal/rewrite internal/pipe sched shim rt explore -name '*.go' ! -name '*_test.go' | sort) | sha256sum | cut -c1-16)
+H=$(cat $(find internal/decl internal/rewrite internal/pipe sched shim rt explore conform -name '*.go' ! -name '*_test.go' | sort) | sha256sum | cut -c1-16)
 mkdir -p bin
 go build -buildvcs=false -ldflags "-X verif/internal/pipe.MachHash=$H" -o bin/vcheck ./cmd/vcheck
 if [ "${1:-}" = "--selftest" ]; then
